@@ -69,7 +69,7 @@ def r18_2(prog, rep):
     for ent_l in vo:
         for ent in mutarg_defs(body).get(ent_l, []):
             t = ent[1]
-            if t.cmethod in VEC_REORDER and 'Vec' in (cnorm(t) + t.cargs):
+            if t.cmethod in VEC_REORDER:
                 bad.append(t.cmethod)
     rep.ob('R18.2', not bad, 'R18.2|%s|result-only-pushed' % body.nkey, 'the result vector is only appended to' if not bad else 'the result vector is also modified by %s' % sorted(set(bad)), body.loc())
     # Ok(result) returns that vector
